@@ -539,6 +539,607 @@ fn bundled_lines(ctx: &mut Ctx) -> Vec<(String, String)> {
 }
 
 // ------------------------------------------------------------------------------------------------
+// labels
+
+#[derive(Clone)]
+struct ULabel {
+    generic: bool,
+    cls: Option<String>,
+    name: String,
+    flavor: Option<String>,
+}
+fn enc_opt_text(t: &Option<String>) -> String {
+    match t {
+        None => "0".into(),
+        Some(t) => format!("1 {}", hex(t.as_bytes())),
+    }
+}
+fn enc_ulabel(l: &ULabel) -> String {
+    format!("{} {} {} {}", l.generic as u8, enc_opt_text(&l.cls), hex(l.name.as_bytes()), enc_opt_text(&l.flavor))
+}
+fn enc_label(l: &Label) -> String {
+    format!(
+        "{} {} {} {}",
+        match l.ty {
+            Type::Specified => 0,
+            Type::Generic => 1,
+        },
+        enc_opt_text(&l.class),
+        hex(l.name.as_bytes()),
+        enc_opt_text(&l.flavor)
+    )
+}
+/// the file syntax of a label (not its `Display`)
+fn file_label(ty_generic: bool, cls: &Option<String>, name: &str, flavor: &Option<String>) -> String {
+    format!(
+        "{}:{}:{}:{}",
+        if ty_generic { "g" } else { "s" },
+        cls.as_deref().unwrap_or("!"),
+        name,
+        flavor.as_deref().unwrap_or("")
+    )
+}
+fn label_parse(t: &str) -> String {
+    let t = t.to_string();
+    guarded(move || match Label::from_str(&t) {
+        Ok(l) => format!("ok {} {}", enc_label(&l), hex(l.to_string().as_bytes())),
+        Err(_) => "err".into(),
+    })
+}
+const CLS: [&str; 8] = ["unix", "win", "other", "", "a b", "x!", "\u{e9}", "0"];
+const LNAMES: [&str; 10] = ["Linux", "Windows", "Mac OS X", "", "NMap", "a.b", "x y z", "-", "\u{3000}x", "!"];
+const FLAVORS: [&str; 10] = ["3.11 and newer", "2.6.x", "XP", "a:b", ":", "::x", "7 or 8", "(loopback)", "\u{e9}", "x!"];
+fn g_ulabel(r: &mut Rng) -> ULabel {
+    ULabel {
+        generic: r.chance(1, 3),
+        cls: if r.chance(1, 3) { None } else { Some((*r.pick(&CLS)).to_string()) },
+        name: (*r.pick(&LNAMES)).to_string(),
+        flavor: if r.chance(1, 4) { None } else { Some((*r.pick(&FLAVORS)).to_string()) },
+    }
+}
+
+// ------------------------------------------------------------------------------------------------
+// documents (mirror of Spec.Doc in lean/Huginn/Spec/SigText.lean)
+
+#[derive(Clone, Default)]
+struct Pad {
+    lead: String,
+    pre: String,
+    post: String,
+    trail: String,
+}
+#[derive(Clone)]
+enum Misc {
+    Comment(String, String),
+    Blank(String),
+    Classes(Pad, Vec<String>),
+    UaOs(Pad, Vec<(String, Option<String>)>),
+}
+#[derive(Clone)]
+enum Item<L, S> {
+    Misc(Misc),
+    Label(Pad, L),
+    Sys(Pad, String),
+    Sig(Pad, S),
+}
+#[derive(Clone)]
+enum Section {
+    Tcp(String, String, bool, Vec<Item<ULabel, TcpSig>>),
+    Http(String, String, bool, Vec<Item<ULabel, HttpSig>>),
+    Mtu(String, String, Vec<Item<String, u32>>),
+    Other(String, String, String, Option<String>, Vec<Item<ULabel, String>>),
+}
+#[derive(Clone)]
+struct Doc {
+    pre: Vec<Misc>,
+    sections: Vec<Section>,
+}
+
+fn named(p: &Pad, name: &str, value: &str) -> String {
+    format!("{}{}{}={}{}{}", p.lead, name, p.pre, p.post, value, p.trail)
+}
+fn render_rule(r: &(String, Option<String>)) -> String {
+    match &r.1 {
+        None => r.0.clone(),
+        Some(v) => format!("{}=[{}]", r.0, v),
+    }
+}
+fn render_misc(m: &Misc) -> String {
+    match m {
+        Misc::Comment(l, t) => format!("{l};{t}"),
+        Misc::Blank(w) => w.clone(),
+        Misc::Classes(p, cs) => named(p, "classes", &cs.join(",")),
+        Misc::UaOs(p, rs) => named(p, "ua_os", &rs.iter().map(render_rule).collect::<Vec<_>>().join(",")),
+    }
+}
+fn render_item<L, S>(it: &Item<L, S>, pl: impl Fn(&L) -> String, ps: impl Fn(&S) -> String) -> String {
+    match it {
+        Item::Misc(m) => render_misc(m),
+        Item::Label(p, l) => named(p, "label", &pl(l)),
+        Item::Sys(p, t) => named(p, "sys", t),
+        Item::Sig(p, s) => named(p, "sig", &ps(s)),
+    }
+}
+fn ulabel_text(l: &ULabel) -> String {
+    file_label(l.generic, &l.cls, &l.name, &l.flavor)
+}
+fn section_lines(s: &Section) -> Vec<String> {
+    let mut out = vec![];
+    match s {
+        Section::Tcp(lead, trail, resp, items) => {
+            out.push(format!("{lead}[tcp:{}]{trail}", if *resp { "response" } else { "request" }));
+            out.extend(items.iter().map(|it| render_item(it, ulabel_text, |s: &TcpSig| s.to_string())));
+        }
+        Section::Http(lead, trail, resp, items) => {
+            out.push(format!("{lead}[http:{}]{trail}", if *resp { "response" } else { "request" }));
+            out.extend(items.iter().map(|it| render_item(it, ulabel_text, |s: &HttpSig| s.to_string())));
+        }
+        Section::Mtu(lead, trail, items) => {
+            out.push(format!("{lead}[mtu]{trail}"));
+            out.extend(items.iter().map(|it| render_item(it, |l: &String| l.clone(), |n: &u32| n.to_string())));
+        }
+        Section::Other(lead, trail, m, d, items) => {
+            out.push(format!("{lead}[{m}{}]{trail}", d.as_ref().map(|d| format!(":{d}")).unwrap_or_default()));
+            out.extend(items.iter().map(|it| render_item(it, ulabel_text, |s: &String| s.clone())));
+        }
+    }
+    out
+}
+
+fn w_pad(l: &mut Line, p: &Pad) {
+    l.text(&p.lead).text(&p.pre).text(&p.post).text(&p.trail);
+}
+fn w_misc(l: &mut Line, m: &Misc) {
+    match m {
+        Misc::Comment(a, b) => {
+            l.nat(0u8).text(a).text(b);
+        }
+        Misc::Blank(w) => {
+            l.nat(1u8).text(w);
+        }
+        Misc::Classes(p, cs) => {
+            l.nat(2u8);
+            w_pad(l, p);
+            l.list(cs, |l, c| {
+                l.text(c);
+            });
+        }
+        Misc::UaOs(p, rs) => {
+            l.nat(3u8);
+            w_pad(l, p);
+            l.list(rs, |l, r| {
+                l.text(&r.0);
+                match &r.1 {
+                    None => l.nat(0u8),
+                    Some(v) => l.nat(1u8).text(v),
+                };
+            });
+        }
+    }
+}
+fn w_raw(l: &mut Line, enc: &str) {
+    for t in enc.split(' ') {
+        l.tok(t);
+    }
+}
+fn w_item<L, S>(l: &mut Line, it: &Item<L, S>, wl: impl Fn(&mut Line, &L), ws: impl Fn(&mut Line, &S)) {
+    match it {
+        Item::Misc(m) => {
+            l.nat(0u8);
+            w_misc(l, m);
+        }
+        Item::Label(p, x) => {
+            l.nat(1u8);
+            w_pad(l, p);
+            wl(l, x);
+        }
+        Item::Sys(p, t) => {
+            l.nat(2u8);
+            w_pad(l, p);
+            l.text(t);
+        }
+        Item::Sig(p, s) => {
+            l.nat(3u8);
+            w_pad(l, p);
+            ws(l, s);
+        }
+    }
+}
+fn w_section(l: &mut Line, s: &Section) {
+    match s {
+        Section::Tcp(lead, trail, resp, items) => {
+            l.nat(0u8).text(lead).text(trail).bool(*resp);
+            l.usize(items.len());
+            for it in items {
+                w_item(l, it, |l, x| w_raw(l, &enc_ulabel(x)), |l, s| w_raw(l, &enc_tcp(s)));
+            }
+        }
+        Section::Http(lead, trail, resp, items) => {
+            l.nat(1u8).text(lead).text(trail).bool(*resp);
+            l.usize(items.len());
+            for it in items {
+                w_item(l, it, |l, x| w_raw(l, &enc_ulabel(x)), |l, s| w_raw(l, &enc_http(s)));
+            }
+        }
+        Section::Mtu(lead, trail, items) => {
+            l.nat(2u8).text(lead).text(trail);
+            l.usize(items.len());
+            for it in items {
+                w_item(l, it, |l, x: &String| {
+                    l.text(x);
+                }, |l, n: &u32| {
+                    l.nat(*n);
+                });
+            }
+        }
+        Section::Other(lead, trail, m, d, items) => {
+            l.nat(3u8).text(lead).text(trail).text(m);
+            match d {
+                None => l.nat(0u8),
+                Some(d) => l.nat(1u8).text(d),
+            };
+            l.usize(items.len());
+            for it in items {
+                w_item(l, it, |l, x| w_raw(l, &enc_ulabel(x)), |l, s: &String| {
+                    l.text(s);
+                });
+            }
+        }
+    }
+}
+
+fn enc_table<S>(entries: &[(Label, Vec<S>)], f: impl Fn(&S) -> String) -> String {
+    enc_list(entries, |e| format!("{} {}", enc_label(&e.0), enc_list(&e.1, &f)))
+}
+/// canonical value form of a loaded database (mirror of `dbValues` in Drv/C06.lean)
+fn db_values(db: &Database) -> String {
+    [
+        "ok".to_string(),
+        "C".into(),
+        enc_list(&db.classes, |c| hex(c.as_bytes())),
+        "M".into(),
+        enc_list(&db.mtu, |e| format!("{} {}", hex(e.0.as_bytes()), enc_list(&e.1, |n| n.to_string()))),
+        "U".into(),
+        enc_list(&db.ua_os, |e| format!("{} {}", hex(e.0.as_bytes()), enc_opt_text(&e.1))),
+        "T0".into(),
+        enc_table(&db.tcp_request.entries, enc_tcp),
+        "T1".into(),
+        enc_table(&db.tcp_response.entries, enc_tcp),
+        "H0".into(),
+        enc_table(&db.http_request.entries, enc_http),
+        "H1".into(),
+        enc_table(&db.http_response.entries, enc_http),
+    ]
+    .join(" ")
+}
+fn err_kind(msg: &str) -> &'static str {
+    let m = msg.strip_prefix("Parse error: ").unwrap_or(msg);
+    if m.starts_with("fail to parse `classes`") {
+        "classes"
+    } else if m.starts_with("fail to parse `ua_os`") {
+        "ua_os"
+    } else if m.starts_with("fail to parse `module`") {
+        "module"
+    } else if m.starts_with("fail to parse named value") {
+        "named-value"
+    } else if m.starts_with("fail to parse `mtu` value") {
+        "mtu-value"
+    } else if m.starts_with("`mtu` value without `label`") {
+        "mtu-no-label"
+    } else if m.starts_with("fail to parse `label`") {
+        "label"
+    } else if m.starts_with("tcp signature without `label`") {
+        "tcp-sig-no-label"
+    } else if m.starts_with("http signature without `label`") {
+        "http-sig-no-label"
+    } else if m.starts_with("parse TcpSignature failed") {
+        "tcp-sig"
+    } else if m.starts_with("parse HttpSignature failed") {
+        "http-sig"
+    } else if m.starts_with("unexpected line outside the module") {
+        "outside-module"
+    } else {
+        "other"
+    }
+}
+fn load_out(text: &str) -> String {
+    let text = text.to_string();
+    guarded(move || match Database::from_str(&text) {
+        Ok(db) => db_values(&db),
+        Err(e) => format!("err:{}", err_kind(&e.to_string())),
+    })
+}
+
+const WS_LEAD: [&str; 6] = ["", "", " ", "\t", "  ", "\u{a0}"];
+const WS_TRAIL: [&str; 7] = ["", "", " ", "\r", " \t", "\u{3000}", "\u{2028}"];
+const GAP: [&str; 6] = [" ", " ", "", "   ", "\t", " \t "];
+fn g_pad(r: &mut Rng) -> Pad {
+    Pad {
+        lead: (*r.pick(&WS_LEAD)).into(),
+        pre: (*r.pick(&GAP)).into(),
+        post: (*r.pick(&GAP)).into(),
+        trail: (*r.pick(&WS_TRAIL)).into(),
+    }
+}
+const UA_NAMES: [&str; 8] = ["Linux", "Windows", "iOS", "Mac OS X", "FreeBSD", "a1", "X-y", "Sun.OS"];
+fn g_misc(r: &mut Rng, lossy_ua: bool) -> Misc {
+    match r.below(10) {
+        0..=3 => Misc::Comment((*r.pick(&WS_LEAD)).into(), (*r.pick(&[" comment", "", "; ;", " [tcp:request]", " sig = x", " label = s:!:x:"])).into()),
+        4..=6 => Misc::Blank((*r.pick(&["", "", " ", "\t ", "\r", "\u{3000}"])).into()),
+        7 | 8 => {
+            let n = 1 + r.below(3) as usize;
+            Misc::Classes(g_pad(r), (0..n).map(|_| (*r.pick(&["win", "unix", "other", "x1", "0"])).to_string()).collect())
+        }
+        _ => {
+            let n = 1 + r.below(4) as usize;
+            Misc::UaOs(
+                g_pad(r),
+                (0..n)
+                    .map(|_| {
+                        if lossy_ua {
+                            ((*r.pick(&UA_NAMES)).to_string(), if r.chance(1, 3) { Some((*r.pick(&["iPad", "SunOS", "a b", ""])).to_string()) } else { None })
+                        } else {
+                            ((*r.pick(&["Linux", "Windows", "FreeBSD", "a1", "0"])).to_string(), None)
+                        }
+                    })
+                    .collect(),
+            )
+        }
+    }
+}
+/// a value the loader's line handling preserves: trimmed, no line break
+fn line_safe(v: &str) -> bool {
+    !v.is_empty() && !v.contains('\n') && v.trim() == v
+}
+fn g_items<L: Clone, S>(
+    r: &mut Rng,
+    orphan_ok: bool,
+    lossy_ua: bool,
+    mut gl: impl FnMut(&mut Rng) -> L,
+    mut gs: impl FnMut(&mut Rng) -> S,
+) -> Vec<Item<L, S>> {
+    let n = match r.below(6) {
+        0 => 0,
+        1 => 1,
+        2 => 2,
+        _ => r.range(3, 9) as usize,
+    };
+    let mut out: Vec<Item<L, S>> = vec![];
+    let mut have_label = false;
+    for _ in 0..n {
+        match r.below(10) {
+            0 | 1 => out.push(Item::Misc(g_misc(r, lossy_ua))),
+            2 => out.push(Item::Sys(g_pad(r), (*r.pick(&["Windows,@unix", "Linux", "@unix,@win", "x = y", "="])).to_string())),
+            3..=5 => {
+                out.push(Item::Label(g_pad(r), gl(r)));
+                have_label = true;
+            }
+            _ => {
+                if have_label || orphan_ok {
+                    out.push(Item::Sig(g_pad(r), gs(r)));
+                } else {
+                    out.push(Item::Label(g_pad(r), gl(r)));
+                    have_label = true;
+                }
+            }
+        }
+    }
+    out
+}
+fn g_wf_ulabel(r: &mut Rng) -> ULabel {
+    loop {
+        let l = g_ulabel(r);
+        let ok_cls = l.cls.as_ref().map_or(true, |c| !c.contains(':') && !c.starts_with('!'));
+        let ok_fl = l.flavor.as_ref().map_or(true, |f| !f.is_empty() && f.trim_end() == f);
+        if ok_cls && !l.name.contains(':') && ok_fl && line_safe(&ulabel_text(&l)) {
+            return l;
+        }
+    }
+}
+fn g_wf_http(r: &mut Rng) -> HttpSig {
+    loop {
+        let s = g_http(r, false);
+        if !s.horder.is_empty() && line_safe(&s.to_string()) {
+            return s;
+        }
+    }
+}
+fn g_section(r: &mut Rng, wf: bool) -> Section {
+    let lead: String = (*r.pick(&WS_LEAD)).into();
+    let trail: String = (*r.pick(&WS_TRAIL)).into();
+    let orphan_ok = !wf && r.chance(1, 3);
+    let lossy = r.chance(1, 8);
+    match r.below(9) {
+        0 | 1 => Section::Tcp(lead, trail, false, g_items(r, orphan_ok, lossy, g_wf_ulabel, g_tcp)),
+        2 => Section::Tcp(lead, trail, true, g_items(r, orphan_ok, lossy, g_wf_ulabel, g_tcp)),
+        3 | 4 => Section::Http(lead, trail, false, g_items(r, orphan_ok, lossy, g_wf_ulabel, |r| if wf { g_wf_http(r) } else { let mut s = g_http(r, false); if !line_safe(&s.to_string()) { s.expsw = "x".into(); } s })),
+        5 => Section::Http(lead, trail, true, g_items(r, orphan_ok, lossy, g_wf_ulabel, g_wf_http)),
+        6 | 7 => Section::Mtu(
+            lead,
+            trail,
+            g_items(r, orphan_ok, lossy, |r| (*r.pick(&["Ethernet or modem", "DSL", "x", "a = b", "[x]", ";"])).to_string(), |r| g_u16(r) as u32),
+        ),
+        _ => {
+            let (m, d) = *r.pick(&[("tls", None), ("tcp", None), ("http", Some("foo")), ("tcp", Some("requests")), ("x", Some("y")), ("MTU", None)]);
+            Section::Other(
+                lead,
+                trail,
+                m.into(),
+                d.map(String::from),
+                g_items(r, true, lossy, g_wf_ulabel, |r| (*r.pick(&["anything goes", "4:64:0:*:*,*:::0", "1:Host::", "x"])).to_string()),
+            )
+        }
+    }
+}
+fn g_doc(r: &mut Rng, wf: bool) -> Doc {
+    let npre = r.below(4) as usize;
+    let nsec = match r.below(8) {
+        0 => 0,
+        1 | 2 => 1,
+        3 | 4 => 2,
+        5 => 3,
+        _ => r.range(4, 7) as usize,
+    };
+    Doc { pre: (0..npre).map(|_| g_misc(r, r.0 % 7 == 0)).collect(), sections: (0..nsec).map(|_| g_section(r, wf)).collect() }
+}
+fn doc_lines(d: &Doc) -> (Vec<String>, Vec<Vec<String>>) {
+    (d.pre.iter().map(render_misc).collect(), d.sections.iter().map(section_lines).collect())
+}
+struct Fault {
+    kind: u8,
+    sec: usize,
+    idx: usize,
+    text: String,
+}
+fn render_with_fault(d: &Doc, f: Option<&Fault>) -> String {
+    let (mut pre, mut secs) = doc_lines(d);
+    if let Some(f) = f {
+        let line = match f.kind {
+            0 => f.text.clone(),
+            3 => format!("label = {}", f.text),
+            _ => format!("sig = {}", f.text),
+        };
+        if f.sec == 0 {
+            pre.insert(f.idx, line);
+        } else {
+            secs[f.sec - 1].insert(1 + f.idx, line);
+        }
+    }
+    let mut out = String::new();
+    for l in pre.iter().chain(secs.iter().flatten()) {
+        out.push_str(l);
+        out.push('\n');
+    }
+    out
+}
+fn emit_doc(ctx: &mut Ctx, d: &Doc, f: Option<&Fault>) {
+    let text = render_with_fault(d, f);
+    let mut l = Line::op("C06.doc");
+    l.list(&d.pre, w_misc);
+    l.usize(d.sections.len());
+    for s in &d.sections {
+        w_section(&mut l, s);
+    }
+    match f {
+        None => {
+            l.nat(0u8);
+        }
+        Some(f) => {
+            l.nat(1u8).nat(f.kind).usize(f.sec).usize(f.idx).text(&f.text);
+        }
+    }
+    l.text(&text);
+    let out = load_out(&text);
+    ctx.emit(l.finish(&out));
+}
+fn n_items(s: &Section) -> usize {
+    match s {
+        Section::Tcp(_, _, _, i) => i.len(),
+        Section::Http(_, _, _, i) => i.len(),
+        Section::Mtu(_, _, i) => i.len(),
+        Section::Other(_, _, _, _, i) => i.len(),
+    }
+}
+fn table_key(s: &Section) -> &'static str {
+    match s {
+        Section::Tcp(_, _, false, _) => "T0",
+        Section::Tcp(_, _, true, _) => "T1",
+        Section::Http(_, _, false, _) => "H0",
+        Section::Http(_, _, true, _) => "H1",
+        Section::Mtu(..) => "M",
+        Section::Other(..) => "-",
+    }
+}
+fn labels_of(s: &Section) -> Vec<bool> {
+    fn f<L, S>(i: &[Item<L, S>]) -> Vec<bool> {
+        i.iter().map(|x| matches!(x, Item::Label(..))).collect()
+    }
+    match s {
+        Section::Tcp(_, _, _, i) => f(i),
+        Section::Http(_, _, _, i) => f(i),
+        Section::Mtu(_, _, i) => f(i),
+        Section::Other(_, _, _, _, i) => f(i),
+    }
+}
+fn label_before(d: &Doc, sec: usize, idx: usize) -> bool {
+    let s = &d.sections[sec - 1];
+    d.sections[..sec - 1].iter().any(|x| table_key(x) == table_key(s) && labels_of(x).iter().any(|b| *b))
+        || labels_of(s)[..idx].iter().any(|b| *b)
+}
+const BAD_TCP: [&str; 10] = [
+    "4:64:0:*:*,*:::", "4:64:0:*:*,*::df", "x", "4:256:0:*:*,*:::0", "4:64:0:*:mss*,*:::0", "4:64:0:*:*,*:mss,:df:0",
+    "4:64:0:*:*,*:?300::0", "5:64:0:*:*,*:::0", "4:64:0:*:*:::0", "4:64:0:*:*,*:::0:",
+];
+const BAD_HTTP: [&str; 6] = ["2:Host::", "1:Host", "1:Host:", "Host::", "1:Host=[a::", "x"];
+const BAD_LABEL: [&str; 8] = ["x:!:a:b", "s:unix:Linux", "s:!x:a:b", "s", "S:!:a:", ":!:a:b", "s:!", "s!:a:b:c"];
+const BAD_MTU: [&str; 6] = ["65536", "x", "15 00", "1500x", "-1", "99999999999999999999"];
+const OUTSIDE: [&str; 5] = ["label = s:!:x:", "sig = 1500", "sys = x", "x", "foo = bar"];
+
+fn g_fault(r: &mut Rng, d: &Doc) -> Option<Fault> {
+    for _ in 0..20 {
+        let kind = r.below(5) as u8;
+        if kind == 0 {
+            return Some(Fault { kind, sec: 0, idx: r.below(d.pre.len() as u64 + 1) as usize, text: (*r.pick(&OUTSIDE)).into() });
+        }
+        if d.sections.is_empty() {
+            continue;
+        }
+        let sec = 1 + r.below(d.sections.len() as u64) as usize;
+        let s = &d.sections[sec - 1];
+        let idx = r.below(n_items(s) as u64 + 1) as usize;
+        let key = table_key(s);
+        let lb = label_before(d, sec, idx);
+        let text: Option<String> = match kind {
+            1 if key != "-" && !lb => Some(match key {
+                "M" => "1500".into(),
+                "T0" | "T1" => g_tcp(r).to_string(),
+                _ => g_wf_http(r).to_string(),
+            }),
+            2 if lb && key.starts_with('T') => Some((*r.pick(&BAD_TCP)).into()),
+            2 if lb && key.starts_with('H') => Some((*r.pick(&BAD_HTTP)).into()),
+            3 if key != "M" => Some((*r.pick(&BAD_LABEL)).into()),
+            4 if key == "M" && lb => Some((*r.pick(&BAD_MTU)).into()),
+            _ => None,
+        };
+        if let Some(text) = text {
+            return Some(Fault { kind, sec, idx, text });
+        }
+    }
+    None
+}
+
+fn printed_table<S: std::fmt::Display>(entries: &[(Label, Vec<S>)]) -> String {
+    enc_list(entries, |e| {
+        format!(
+            "{} {}",
+            hex(file_label(matches!(e.0.ty, Type::Generic), &e.0.class, &e.0.name, &e.0.flavor).as_bytes()),
+            enc_list(&e.1, |s| hex(s.to_string().as_bytes()))
+        )
+    })
+}
+fn bundled_db(ctx: &mut Ctx) {
+    let db = match Database::load_default() {
+        Ok(db) => db,
+        Err(_) => {
+            ctx.emit(Line::op("C06.bundled").tok("classes").finish("err"));
+            return;
+        }
+    };
+    let parts: Vec<(&str, String)> = vec![
+        ("classes", enc_list(&db.classes, |c| hex(c.as_bytes()))),
+        ("uaos", enc_list(&db.ua_os, |e| format!("{} {}", hex(e.0.as_bytes()), enc_opt_text(&e.1)))),
+        ("mtu", enc_list(&db.mtu, |e| format!("{} {}", hex(e.0.as_bytes()), enc_list(&e.1, |n| hex(n.to_string().as_bytes()))))),
+        ("tcp:request", printed_table(&db.tcp_request.entries)),
+        ("tcp:response", printed_table(&db.tcp_response.entries)),
+        ("http:request", printed_table(&db.http_request.entries)),
+        ("http:response", printed_table(&db.http_response.entries)),
+    ];
+    for (p, out) in parts {
+        ctx.emit(Line::op("C06.bundled").tok(p).finish(&out));
+    }
+}
+
+// ------------------------------------------------------------------------------------------------
 
 pub fn run(ctx: &mut Ctx) {
     let mut r = ctx.rng.fork();
@@ -738,5 +1339,64 @@ pub fn run(ctx: &mut Ctx) {
         let t = if r.chance(1, 5) { base } else { mutate(&mut r, &base, HTTP_ALPHABET) };
         emit_phttp(ctx, &t);
     }
-    let _ = (Database::load_default().is_ok(), Label::from_str("s:!:x:"));
+
+    // --- labels: file syntax of generated labels, and mutations
+    for t in ["s:unix:Linux:3.11 and newer", "g:!:x:", "s:!:NMap:SYN scan", "s::x:", "s:!x:a:b", "s:unix:Linux", "x:!:a:b",
+        "s:!:a:b:c", "s:!:a::", "s:!::", "s:!:", "", "s", "s:", "g:win:Windows:XP ", "Specified:unix:Linux:3.x"] {
+        ctx.emit(Line::op("C06.plabel").text(t).finish(&label_parse(t)));
+    }
+    for _ in 0..ctx.n(1500, 30_000) {
+        let base = ulabel_text(&g_ulabel(&mut r));
+        let t = if r.chance(1, 2) { base } else { mutate(&mut r, &base, b"sg:!ab ") };
+        ctx.emit(Line::op("C06.plabel").text(&t).finish(&label_parse(&t)));
+    }
+
+    // --- the bundled database, part by part
+    bundled_db(ctx);
+
+    // --- documents
+    {
+        // the shape of the bundled file in miniature, and the ua_os line as it is written there
+        let p = Pad { lead: "".into(), pre: "   ".into(), post: " ".into(), trail: "".into() };
+        let lab = |n: &str, f: &str| ULabel { generic: false, cls: Some("unix".into()), name: n.into(), flavor: Some(f.into()) };
+        let d = Doc {
+            pre: vec![Misc::Comment("".into(), " p0f".into()), Misc::Blank("".into()), Misc::Classes(p.clone(), vec!["win".into(), "unix".into(), "other".into()])],
+            sections: vec![
+                Section::Mtu("".into(), "".into(), vec![Item::Label(p.clone(), "Ethernet or modem".into()), Item::Sig(p.clone(), 576), Item::Sig(p.clone(), 1500)]),
+                Section::Tcp("".into(), "".into(), false, vec![Item::Label(p.clone(), lab("Linux", "3.x")), Item::Sig(p.clone(), base_tcp()), Item::Label(p.clone(), lab("Linux", "2.x")), Item::Sig(p.clone(), g_tcp(&mut r)), Item::Sig(p.clone(), g_tcp(&mut r))]),
+                Section::Http("".into(), "".into(), false, vec![
+                    Item::Misc(Misc::UaOs(p.clone(), vec![("Linux".into(), None), ("Windows".into(), None), ("iOS".into(), Some("iPad".into())), ("Mac OS X".into(), None), ("FreeBSD".into(), None)])),
+                    Item::Label(p.clone(), lab("Firefox", "2.x")), Item::Sys(p.clone(), "Windows,@unix".into()), Item::Sig(p.clone(), g_wf_http(&mut r))]),
+                Section::Tcp("".into(), "".into(), false, vec![Item::Label(p.clone(), lab("Again", "x")), Item::Sig(p.clone(), base_tcp())]),
+            ],
+        };
+        emit_doc(ctx, &d, None);
+        emit_doc(ctx, &Doc { pre: vec![], sections: vec![] }, None);
+    }
+    for _ in 0..ctx.n(2500, 60_000) {
+        let wf = r.chance(4, 5);
+        let d = g_doc(&mut r, wf);
+        emit_doc(ctx, &d, None);
+    }
+    for _ in 0..ctx.n(1500, 30_000) {
+        let d = g_doc(&mut r, true);
+        if let Some(f) = g_fault(&mut r, &d) {
+            emit_doc(ctx, &d, Some(&f));
+        }
+    }
+    // --- raw texts: rendered documents with character-level damage, odd line endings
+    for t in ["", "\n", "[tcp:request]", "[tcp:request", "tcp:request]", "[]", "[tcp:]", "[:x]", "[tcp:request]x]", "[tcp request]",
+        "[mtu]\nlabel=x\nsig=+1500", "[mtu]\nlabel=x\nsig=+", "[mtu]\nlabel=x\nsig=-0", "[mtu]\nlabel=x\nsig=00001500", "[mtu]\nsig=1",
+        "[mtu]\nlabel\n", "[mtu]\n=x", "[mtu]\nlabel x", "[mtu]\nla bel=x", "classes", "classes=", "classes = a,b c", "classesx = a",
+        "[mtu]\nclassesx = a", "ua_os", "ua_os = a=b,c = d , e", "ua_os=a=[b]", "ua_osx", "[tcp:request]\r\nlabel = s:!:a:\r\nsig = 4:64:0:*:*,*:::0\r\n",
+        "[tcp:request]\nlabel = s:!:a:\nsig = 4:64:0:*:*,*:::0 \u{3000}", "\u{feff}[mtu]", "[mtu]\nsys = x", "[tcp:request]\nsys = x\nsig = x"] {
+        let t = t.replace("\\n", "\n");
+        ctx.emit(Line::op("C06.raw").text(&t).finish(&load_out(&t)));
+    }
+    for _ in 0..ctx.n(1500, 40_000) {
+        let d = g_doc(&mut r, true);
+        let base = render_with_fault(&d, None);
+        let t = mutate(&mut r, &base, b"[]:=;\n\r ,slabeligcu_o*1");
+        ctx.emit(Line::op("C06.raw").text(&t).finish(&load_out(&t)));
+    }
 }
